@@ -51,8 +51,8 @@ Definition rs_names (s : rstate) : Prop :=
 
 Lemma run_test_names l t b s : rs_names s -> rs_names (run_test w o l t b s).
 Proof.
-  intros [H1 H2]. unfold run_test, rs_names.
-  destruct (fold_effect w o l t (proto b) s) as [_ [F2 [F3 [_ [F5 [_ F7]]]]]]. rewrite F2, F3, F5, F7, !flat_map_app.
+  intros [H1 H2]. unfold rs_names.
+  destruct (run_test_effect w o l t b s) as [_ [F2 [F3 [_ [F5 [_ F7]]]]]]. rewrite F2, F3, F5, F7, !flat_map_app.
   destruct (block_names l t (proto b)) as [B1 B2]. rewrite B2, H2. split; [|reflexivity].
   eapply perm_trans; [|apply Permutation_app; [exact H1 | apply Permutation_sym; exact B1]].
   rewrite <- !app_assoc. apply Permutation_app_head. rewrite !app_assoc. apply Permutation_app_tail. apply Permutation_app_comm.
